@@ -44,6 +44,9 @@ def gen_case(r, small=None):
         mn = mx = 16
         blocks = [r.randbytes(16) for _ in range(4)]
         return {'params': (mn, mx), 'files': {'f0': b''.join(blocks)}, 'n': 4, 'async': r.random() < 0.5, 'encrypted': False, 'shape': small, 'prepopulate': 'all'}
+    if small == 'abort1':      # more chunks than the queue holds, one worker: only the abort flag lets the producer stop after a failure
+        mn = mx = 12
+        return {'params': (mn, mx), 'files': {'f0': r.randbytes(12 * 14)}, 'n': 1, 'async': r.random() < 0.5, 'encrypted': False, 'shape': small}
     if small == 'd4':          # two chunks of one file → two loaders, one pending set
         mn = mx = 32
         return {'params': (mn, mx), 'files': {'f0': r.randbytes(64)}, 'n': 2, 'async': False, 'encrypted': False, 'shape': small}
@@ -623,7 +626,9 @@ def do_item(arg):
                     if spec[0] == 'pct':
                         spec = ('pct', spec[1], est)
                     fail = None
-                    if item.get('fail') and s_i == 0 and prep.total:
+                    if item.get('fail_first') and prep.total:
+                        fail = ('exists', ('c', 0))
+                    elif item.get('fail') and s_i == 0 and prep.total:
                         k = r.randrange(prep.total)
                         fail = (r.choice(['exists', 'upload_stream']) if not case.get('prepopulate') else 'exists', ('c', prep.names[prep.loc_by_counter[k]][1]))
                     results.append(run_snapshot_schedule(prep, spec, rng_for(seed, 'C09-s', item['id'], s_i), flags, fail=fail, quick=quick))
@@ -663,6 +668,7 @@ def plan(seed, tier):
     for rep in range(2 if quick else 6):
         items.append({'id': f'sh3-{rep}', 'kind': 'restore-preempt', 'case': f'sh3-{rep}', 'small': 'share3', 'bound': 1 if quick else 2, 'budget': 30 if quick else 400,
                       'budget2': 0 if quick else 300})
+    items.append({'id': 'abort1', 'kind': 'random', 'case': 'ab1', 'small': 'abort1', 'strategies': [['random'], ['fifo']], 'fail_first': True, 'time_box': 40})
     # (ii) random / PCT on generated cases
     nrand = 40 if quick else 700
     for k in range(nrand):
